@@ -65,7 +65,7 @@ def signedMessage (signed : Bytes) (ver : BVer) : Bytes :=
 
 /-- `Exchange.AddPayloadIntegrity(ver, recordSize)`: MI-encode the body, add Content-Encoding and Digest -/
 def addPayloadIntegrity (H : Bytes → Bytes) (e : Exch) (rs : Nat) : Option Exch :=
-  if get e.resp.headers hDigest ≠ [] then none
+  if values e.resp.headers hDigest ≠ [] then none
   else
     let (stream, digest) := Mice.encode H .draft03 e.resp.body rs
     let r : Resp := { status := e.resp.status, body := stream,
